@@ -173,6 +173,24 @@ pub mod opaque_eq {
     }
 }
 
+/// a `macro_rules!` helper defined in the module and used in the SIGNATURE of a visible fn (textual scope: what
+/// the macro generates from the signature has to come after the helper's definition)
+#[entrait(pub Ledger)]
+pub mod ledger {
+    macro_rules! Res {
+        ($t:ty) => { Result<$t, ()> };
+    }
+    pub fn balance<D>(deps: &D, account: u32) -> Res!(i64) {
+        Ok(account as i64)
+    }
+    macro_rules! Amount {
+        () => { i64 };
+    }
+    pub fn deposit<D>(deps: &D, amount: Amount!()) -> Res!(Amount!()) {
+        Ok(amount)
+    }
+}
+
 /// `no_deps` module: visible functions WITHOUT any parameter are methods too (the receiver is inserted)
 #[entrait(pub Settings, no_deps)]
 pub mod settings {
